@@ -18,6 +18,7 @@ GS = 'amd/driver/memorycopyglobalstorage.go'
 DMA = 'amd/timing/cp/dma.go'
 CPM = 'amd/timing/cp/cpMiddleware.go'
 SA = 'amd/emu/storageaccessor.go'
+DMS = 'amd/driver/internal/devicememstateinterface.go'
 
 def nth(s, old, new, k):
     """replace the k-th (0-based) occurrence"""
@@ -148,6 +149,17 @@ func (m *defaultMemoryCopyMiddleware) find(pid vm.PID, addr uint64) (vm.Page, bo
 // defaultMemoryCopyMiddleware handles memory copy commands and related
 // communication.
 type defaultMemoryCopyMiddleware struct {''').replace('m.driver.pageTable.Find(queue.Context.pid, addr)', 'm.find(queue.Context.pid, addr)', 1)),
+ # --- FreeMemory / re-allocate in mid-history ---
+ # the seeded break c11-6: the default free page list becomes a stack (a freed frame is the next one handed out)
+ ('seed6-free-page-list-is-a-stack', DMS, lambda s: s.replace("""	endAddr := dms.initialAddress + dms.storageSize
+	for addr := dms.initialAddress; addr < endAddr; addr += pageSize {
+		dms.addSinglePAddr(addr)
+	}""", """	for n := dms.storageSize / pageSize; n > 0; n-- {
+		dms.addSinglePAddr(dms.initialAddress + (n-1)*pageSize)
+	}""").replace("""	nextPAddr := dms.availablePAddrs[0]
+	dms.availablePAddrs = dms.availablePAddrs[1:]""", """	last := len(dms.availablePAddrs) - 1
+	nextPAddr := dms.availablePAddrs[last]
+	dms.availablePAddrs = dms.availablePAddrs[:last]""")),
 ]
 
 def keys():
